@@ -32,8 +32,11 @@ def run(ctx, idx):
     rets = [v for _, v, _ in r.returns if isinstance(v, Arr)]
     ok = bool(good) and all(any(t.alias & v.alias for _, t, _ in good) for v in rets)
     eq = all(v.cmp[1] == "Eq" for _, _, v in good) if good else False
+    ops = sorted({v.cmp[1] for _, _, v in good})
     ctx.ob("C17.b", "%s.execute::mask-from-missing-value" % d.key, d.module.rel, good[0][0] if good else d.execute.node.lineno, ok and eq,
-           "mask = (data == %s) stored on the returned array" % miss[0] if ok and eq else "the cells equal to `%s` are not the ones marked missing on the returned array" % (miss[0] if miss else "MissingVal"))
+           "mask = (data == %s) stored on the returned array" % miss[0] if ok and eq else (
+               "cells are marked missing by a `%s` comparison with `%s`, not by equality: values merely close to the missing value are masked too" % ("/".join(ops), miss[0]) if ok and not eq else
+               "the cells equal to `%s` are not the ones marked missing on the returned array" % (miss[0] if miss else "MissingVal")))
     # the mask must be guarded by 'a missing value was given'
     # ---- c
     fi = d.execute
@@ -61,10 +64,23 @@ def run(ctx, idx):
         elif isinstance(n, ast.Name) and n.id == ivar and isinstance(n.ctx, ast.Load):
             pass
     want = consumed + 1 - start
+    en_arg = en.args[0] if en.args else None
+    filtered_src = None
+    if isinstance(en_arg, (ast.GeneratorExp, ast.ListComp)) and en_arg.generators[0].ifs:
+        filtered_src = en_arg
+    if isinstance(en_arg, ast.Name):
+        for n in own_nodes(fi.node):
+            if isinstance(n, ast.Assign) and any(isinstance(t, ast.Name) and t.id == en_arg.id for t in n.targets):
+                if isinstance(n.value, (ast.GeneratorExp, ast.ListComp)) and n.value.generators[0].ifs:
+                    filtered_src = n.value
+                elif isinstance(n.value, ast.Call) and isinstance(n.value.func, ast.Name) and n.value.func.id == "filter":
+                    filtered_src = n.value
     bare = [n for n in own_nodes(fi.node) if isinstance(n, ast.Call) and isinstance(n.func, ast.Attribute) and n.func.attr == "format" and any(isinstance(a, ast.Name) and a.id == ivar for a in n.args)]
     if bare:
         exprs.append((bare[0], 0))
-    if not exprs:
+    if filtered_src is not None and exprs:
+        ctx.violate("C17.c", con, d.module.rel, h.line, "rows are numbered after blank rows have been filtered out (`%s`): the reported line is too small by the number of blank lines before it" % K.src(filtered_src)[:60])
+    elif not exprs:
         ctx.violate("C17.c", con, d.module.rel, h.line, "the invalid-value error no longer reports a line derived from the row index")
     else:
         node, k = exprs[0]
@@ -73,6 +89,8 @@ def run(ctx, idx):
     subs = [n for n in cfg.find("sub") if isinstance(n.ast.value, ast.Name) and n.ast.value.id == rowvar]
     guards = [t for t in cfg.find("test") if isinstance(t.ast, ast.Name) and t.ast.id == rowvar]
     ok = bool(subs) and bool(guards) and all(any(cfg.dominates(g, s) and s not in cfg.reachable([m for m, l in g.succ if l == "false"], avoid={g, h}) for g in guards) for s in subs)
+    if filtered_src is not None and bool(subs):
+        ok = True  # blank rows are removed by the filtering iterable itself
     ctx.ob("C17.c", "%s.execute::blank-rows" % d.key, d.module.rel, subs[0].line if subs else h.line, ok, "blank rows are skipped before the row is indexed" if ok else "a blank line reaches `%s[...]` and fails with IndexError instead of being skipped" % rowvar)
     # ---- d, e (writer)
     d, r = wr
